@@ -144,6 +144,17 @@ func FidelityScenario(e *Env) {
 	e.Do(e.InsertOne("d.fs.chunks", d("_id", int32(1), "n", int32(0))))
 	e.Do(e.InsertOne("d.m.2024.q1", d("_id", int32(1))))
 	e.Do(e.InsertOne("d.fs", d("_id", int32(1))))
+	// arrays emptied by every operator that can empty one: they are arrays again after the reload
+	e.Do(e.InsertMany("d.arrays", []bson.D{d("_id", int32(1), "t", bson.A{int32(1), int32(1)}), d("_id", int32(2), "t", bson.A{int32(1)}), d("_id", int32(3), "t", bson.A{int32(1), int32(2)}),
+		d("_id", int32(4), "t", bson.A{int32(7)}), d("_id", int32(5), "t", bson.A{int32(7)}), d("_id", int32(6), "t", bson.A{d("k", int32(1))}), d("_id", int32(7), "n", d("t", bson.A{int32(1)}))}, true))
+	e.Do(e.Update("d.arrays", false, d("_id", int32(1)), d("$pull", d("t", int32(1))), false, nil))
+	e.Do(e.Update("d.arrays", false, d("_id", int32(2)), d("$pop", d("t", int32(1))), false, nil))
+	e.Do(e.Update("d.arrays", false, d("_id", int32(3)), d("$pullAll", d("t", bson.A{int32(1), int32(2)})), false, nil))
+	e.Do(e.Update("d.arrays", false, d("_id", int32(4)), d("$push", d("t", d("$each", bson.A{}, "$slice", int32(0)))), false, nil))
+	e.Do(e.Update("d.arrays", false, d("_id", int32(5)), d("$set", d("t", bson.A{})), false, nil))
+	e.Do(e.Update("d.arrays", false, d("_id", int32(6)), d("$pull", d("t", d("k", d("$gte", int32(0))))), false, nil))
+	e.Do(e.Update("d.arrays", false, d("_id", int32(7)), d("$pull", d("n.t", d("$in", bson.A{int32(1)}))), false, nil))
+	e.Do(e.Update("d.arrays", false, d("_id", int32(8)), d("$addToSet", d("t", d("$each", bson.A{}))), true, nil))
 	e.Do(e.Update(ns, true, d("_id", d("$lt", int32(5))), d("$set", d("z", int32(1))), false, nil))
 	e.Do(e.Delete(ns, false, d("_id", int32(3))))
 	e.Reopen()
@@ -152,6 +163,8 @@ func FidelityScenario(e *Env) {
 	e.Do(e.InsertOne(ns, d("_id", int32(1000), "u", int32(4), "v", dec128("1.00"))))
 	e.Do(e.InsertOne(ns, d("_id", int32(1001), "u", int32(4), "v", int32(1))))
 	e.Do(e.InsertOne("d.other", d("_id", int32(2), "a", d("b", int64(1)))))
+	e.Do(e.Update("d.arrays", true, d(), d("$push", d("t", int32(9))), false, nil))
+	e.Do(e.Find("d.arrays", d("t", d("$size", int32(1))), d("_id", int32(1)), nil, 0, 0))
 	e.Do(e.InsertOne("d.fs.files", d("_id", int32(3), "filename", "a")))
 	e.Do(e.Find("d.fs.files", d(), d("_id", int32(1)), nil, 0, 0))
 	e.Do(e.Count("d.m.2024.q1", d(), 0, 0))
